@@ -4,7 +4,7 @@ import json
 import os
 
 ROOT = os.path.dirname(os.path.dirname(os.path.abspath(__file__)))
-props = json.load(open(os.path.join(ROOT, 'props.json')))
+props = json.load(open(os.path.join(ROOT, 'theorems.json')))
 ids = [json.loads(l)['id'] for l in open(os.path.join(ROOT, 'properties.jsonl'))]
 
 TEXT = {
